@@ -137,6 +137,8 @@ class Bus(gpp.UGenParameter, gpp.NodeParameter):
     ### Node parameter interface ###
 
     def _as_control_input(self):
+        if self._index is None:
+            raise BusAlreadyFreed('_as_control_input')
         return self._index
 
 
